@@ -168,8 +168,12 @@ def c06_3(rep, ix, G):
     c = rng[0]
     ok = False
     why = ""
-    if len(c.args) == 1 and isinstance(c.args[0], ast.Starred) and isinstance(c.args[0].value, (ast.ListComp, ast.GeneratorExp)):
-        lc = c.args[0].value
+    from .c07 import resolve
+    star = resolve(fn, c.args[0].value) if len(c.args) == 1 and isinstance(c.args[0], ast.Starred) else None
+    if isinstance(star, ast.Call) and u(star.func) in ("list", "tuple") and len(star.args) == 1:
+        star = star.args[0]
+    if isinstance(star, (ast.ListComp, ast.GeneratorExp)):
+        lc = star
         g = lc.generators[0]
         tv = u(g.target)
         elt_ok = u(lc.elt) == "int(%s.getText())" % tv
